@@ -23,8 +23,8 @@ func Ob_C01_DidUpdate_Clock() {
 	w := NewWorld()
 	var msg didtypes.MsgUpdate
 	sym.Fill("msg", &msg)
-	sym.SetBound("MsgUpdate.RemoveAccountDid", 0) // the clock is read before the lists are looked at
-	sym.SetBound("MsgUpdate.UpdateAccountAuth", 0)
+	sym.SetBound(".RemoveAccountDid", 0) // the clock is read before the lists are looked at
+	sym.SetBound(".UpdateAccountAuth", 0)
 	snap := w.Snapshot()
 	var err1, err2 error
 	p1, _ := sym.Catch(func() { _, err1 = w.DidMsg.Update(sdk.WrapSDKContext(w.Ctx), &msg) })
